@@ -134,6 +134,7 @@ func runTape(p *Property, tier string, t *Tape, render bool, agg *Ctx) (res Case
 	resetPackageState()
 	installHooks(c)
 	defer uninstallHooks()
+	defer c.killGoroutines() // (before the hooks go: unwinding runs deferred calls of the package)
 	func() {
 		defer func() {
 			if r := recover(); r != nil {
